@@ -58,6 +58,7 @@ type Step struct {
 	Parent int    `json:"parent,omitempty"` // block: index of the parent block (0 = genesis)
 	Main   bool   `json:"main,omitempty"`   // block extends the main chain
 	Ops    []Op   `json:"ops,omitempty"`
+	Ops2   []Op   `json:"ops2,omitempty"` // twins: the sibling's operations
 	Base   uint32 `json:"base,omitempty"`
 	Target uint32 `json:"target,omitempty"`
 }
@@ -233,47 +234,61 @@ func runReal(c *Case) (rr realRun) {
 		}
 		return false
 	}
+	addBlock := func(parent int, st *state.State, ops []Op, main bool) bool {
+		p := rr.blocks[parent]
+		num := p.num + 1
+		conflicts, err := repo.ScanConflicts(num)
+		if err != nil {
+			rr.err = err.Error()
+			return false
+		}
+		if err := applyOps(c, st, ops); err != nil {
+			rr.err = "block ops: " + err.Error()
+			return false
+		}
+		ver := trie.Version{Major: num, Minor: conflicts}
+		stage, err := st.Stage(ver)
+		if err != nil {
+			rr.err = "stage: " + err.Error()
+			return false
+		}
+		root, err := stage.Commit()
+		if err != nil {
+			rr.err = "commit: " + err.Error()
+			return false
+		}
+		blk := new(block.Builder).ParentID(p.id).StateRoot(root).TotalScore(uint64(num)).Timestamp(1000000 + uint64(num)*10 + uint64(conflicts)).Build()
+		sig, _ := crypto.Sign(blk.Header().SigningHash().Bytes(), signKey)
+		blk = blk.WithSignature(sig)
+		if err := repo.AddBlock(blk, nil, conflicts, main); err != nil {
+			rr.err = "add block: " + err.Error()
+			return false
+		}
+		b := blockRec{id: blk.Header().ID(), num: num, conflicts: conflicts, parent: parent, root: trie.Root{Hash: root, Ver: ver}}
+		co := triesim.ReadCommitted(db, b.root)
+		b.atCommit = co.Text()
+		if f := co.Property(); f != "" {
+			fail(f)
+		}
+		b.index = append(append([]string(nil), p.index...), hex.EncodeToString(b.id[:]))
+		rr.blocks = append(rr.blocks, b)
+		return true
+	}
 	for si, s := range c.Steps {
 		switch s.K {
 		case "block":
-			p := rr.blocks[s.Parent]
-			num := p.num + 1
-			conflicts, err := repo.ScanConflicts(num)
-			if err != nil {
-				rr.err = err.Error()
+			st := state.New(db, rr.blocks[s.Parent].root)
+			if !addBlock(s.Parent, st, s.Ops, s.Main) {
 				return
 			}
-			st := state.New(db, p.root)
-			if err := applyOps(c, st, s.Ops); err != nil {
-				rr.err = "block ops: " + err.Error()
+		case "twins":
+			// two states opened on the same parent before either of them stages: they share the parent's nodes
+			// through the root-node cache; each then builds and commits its own block (sibling forks)
+			stA := state.New(db, rr.blocks[s.Parent].root)
+			stB := state.New(db, rr.blocks[s.Parent].root)
+			if !addBlock(s.Parent, stA, s.Ops, s.Main) || !addBlock(s.Parent, stB, s.Ops2, false) {
 				return
 			}
-			ver := trie.Version{Major: num, Minor: conflicts}
-			stage, err := st.Stage(ver)
-			if err != nil {
-				rr.err = "stage: " + err.Error()
-				return
-			}
-			root, err := stage.Commit()
-			if err != nil {
-				rr.err = "commit: " + err.Error()
-				return
-			}
-			blk := new(block.Builder).ParentID(p.id).StateRoot(root).TotalScore(uint64(num)).Timestamp(1000000 + uint64(num)*10 + uint64(conflicts)).Build()
-			sig, _ := crypto.Sign(blk.Header().SigningHash().Bytes(), signKey)
-			blk = blk.WithSignature(sig)
-			if err := repo.AddBlock(blk, nil, conflicts, s.Main); err != nil {
-				rr.err = "add block: " + err.Error()
-				return
-			}
-			b := blockRec{id: blk.Header().ID(), num: num, conflicts: conflicts, parent: s.Parent, root: trie.Root{Hash: root, Ver: ver}}
-			co := triesim.ReadCommitted(db, b.root)
-			b.atCommit = co.Text()
-			if f := co.Property(); f != "" {
-				fail(f)
-			}
-			b.index = append(append([]string(nil), p.index...), hex.EncodeToString(b.id[:]))
-			rr.blocks = append(rr.blocks, b)
 		case "restart":
 			db = muxdb.NewWithEngine(eng, c.options())
 			repo, err = chain.NewRepository(db, gen)
@@ -321,6 +336,9 @@ func runReal(c *Case) (rr realRun) {
 					rec.state, rec.detail = "fail", co.Err
 				case co.Text() == b.atCommit:
 					rec.state = "same"
+					if f := co.Property(); f != "" && !c.Misaligned {
+						fail(fmt.Sprintf("block #%d (v%d.%d) re-read at step %d: %s", bi, b.num, b.conflicts, si, f))
+					}
 				default:
 					rec.state, rec.detail = "different", co.Text()
 				}
@@ -368,10 +386,19 @@ func clip(s string) string {
 func (c *Case) isMain(blockIdx int) bool {
 	n := 0
 	for _, s := range c.Steps {
-		if s.K == "block" {
+		switch s.K {
+		case "block":
 			n++
 			if n == blockIdx {
 				return s.Main
+			}
+		case "twins":
+			n += 2
+			if n-1 == blockIdx {
+				return s.Main
+			}
+			if n == blockIdx {
+				return false
 			}
 		}
 	}
@@ -441,19 +468,25 @@ func oracleLine(c *Case, rr *realRun) string {
 	}
 	segs = append(segs, "commit 0 0 1")
 	bi := 0
-	for _, s := range c.Steps {
-		if s.K != "block" {
-			continue
-		}
+	one := func(parent int, ops []Op) bool {
 		bi++
 		if bi >= len(rr.blocks) {
-			break
+			return false
 		}
-		segs = append(segs, fmt.Sprintf("open %d", s.Parent+1))
-		for _, op := range s.Ops {
+		segs = append(segs, fmt.Sprintf("open %d", parent+1))
+		for _, op := range ops {
 			segs = append(segs, opTokens(c, op))
 		}
 		segs = append(segs, fmt.Sprintf("commit %x %x 1", rr.blocks[bi].num, rr.blocks[bi].conflicts))
+		return true
+	}
+	for _, s := range c.Steps {
+		if s.K == "block" && !one(s.Parent, s.Ops) {
+			break
+		}
+		if s.K == "twins" && !(one(s.Parent, s.Ops) && one(s.Parent, s.Ops2)) {
+			break
+		}
 	}
 	b.WriteString(" " + strings.Join(segs, " ; "))
 	return b.String()
@@ -517,6 +550,8 @@ func disagreement(c *Case, rr *realRun, ans string) string {
 
 // ---------------------------------------------------------------- generation
 
+var destroyBias bool // shared-prefix cases: plain create / destroy traffic (accounts and slots appear and disappear)
+
 func genOps(r *hx.Rand, na, nk int, hot int, n int) []Op {
 	var ops []Op
 	depth := 1
@@ -527,6 +562,22 @@ func genOps(r *hx.Rand, na, nk int, hot int, n int) []Op {
 			a = r.Intn(hot) // most later traffic hits a few accounts; the others keep old-version nodes
 		}
 		s := r.Intn(nk)
+		if destroyBias && r.Chance(3, 4) {
+			a = r.Intn(na)
+			switch r.Intn(5) {
+			case 0:
+				ops = append(ops, Op{K: "bal", A: a, V: "0"})
+			case 1:
+				ops = append(ops, Op{K: "del", A: a})
+			case 2:
+				ops = append(ops, Op{K: "sto", A: a, S: s, V: hex.EncodeToString(make([]byte, 32))})
+			case 3:
+				ops = append(ops, Op{K: "bal", A: a, V: hex.EncodeToString(r.Bytes(r.Range(1, 8)))})
+			default:
+				ops = append(ops, Op{K: "sto", A: a, S: s, V: hex.EncodeToString(append(make([]byte, 24), r.Bytes(8)...))})
+			}
+			continue
+		}
 		switch x := r.Intn(100); {
 		case x < 25:
 			v := []string{"0", "1", "de0b6b3a7640000", hex.EncodeToString(r.Bytes(r.Range(1, 16)))}[r.Intn(4)]
@@ -575,14 +626,27 @@ func genOps(r *hx.Rand, na, nk int, hot int, n int) []Op {
 func genCase(r *hx.Rand, idx int, thorough bool) *Case {
 	c := &Case{}
 	na, nk := r.Range(3, 24), r.Range(2, 12)
+	// every third case: few accounts / keys whose secure keys share their first byte (extension over a small branch)
+	shared := idx%3 == 1
+	if shared {
+		na, nk = r.Range(2, 4), r.Range(2, 3)
+	}
+	pick := func(n int) []byte {
+		for {
+			b := r.Bytes(n)
+			if !shared || thor.Blake2b(b).Bytes()[0] == 0x5a {
+				return b
+			}
+		}
+	}
 	for i := 0; i < na; i++ {
-		c.Addrs = append(c.Addrs, hex.EncodeToString(r.Bytes(20)))
+		c.Addrs = append(c.Addrs, hex.EncodeToString(pick(20)))
 	}
 	for i := 0; i < nk; i++ {
-		if r.Chance(1, 4) {
+		if !shared && r.Chance(1, 4) {
 			c.Keys = append(c.Keys, hex.EncodeToString(append(make([]byte, 31), byte(i))))
 		} else {
-			c.Keys = append(c.Keys, hex.EncodeToString(r.Bytes(32)))
+			c.Keys = append(c.Keys, hex.EncodeToString(pick(32)))
 		}
 	}
 	c.HistFactor = []uint32{1, 2, 4, 8, 16}[r.Intn(5)]
@@ -590,8 +654,10 @@ func genCase(r *hx.Rand, idx int, thorough bool) *Case {
 	c.CacheMB = r.Range(1, 2)
 	c.TTL = uint16([]int{0, 1, 4, 32}[r.Intn(4)])
 	c.Misaligned = idx%8 == 7
+	destroyBias = shared
+	defer func() { destroyBias = false }()
 	c.Genesis = genOps(r, na, nk, 0, r.Range(3, 30))
-	hot := r.Range(1, 3)
+	hot := min(r.Range(1, 3), na)
 	nblocks := r.Range(10, 60)
 	if thorough {
 		nblocks = r.Range(30, 300)
@@ -606,6 +672,17 @@ func genCase(r *hx.Rand, idx int, thorough bool) *Case {
 	for nb < nblocks {
 		switch x := r.Intn(100); {
 		case x < 70: // extend the main chain
+			if r.Chance(1, 4) {
+				// twins: the next main block and a sibling, both opened on the head before either stages
+				c.Steps = append(c.Steps, Step{K: "twins", Parent: mainHead, Main: true, Ops: genOps(r, na, nk, hot, r.Range(1, 6)), Ops2: genOps(r, na, nk, hot, r.Range(1, 6))})
+				nb += 2
+				prev := mainNum
+				mainHead, mainNum = nb-1, mainNum+1
+				blockNum = append(blockNum, mainNum, mainNum)
+				isMain = append(isMain, true, false)
+				branch = append(branch, mainNum, prev)
+				continue
+			}
 			c.Steps = append(c.Steps, Step{K: "block", Parent: mainHead, Main: true, Ops: genOps(r, na, nk, hot, r.Range(0, 6))})
 			nb++
 			mainHead, mainNum = nb, mainNum+1
@@ -704,11 +781,14 @@ func shrink(c *Case, bad func(*Case) bool) *Case {
 func validParents(c *Case) bool {
 	nb := 0
 	for _, s := range c.Steps {
-		if s.K == "block" {
+		if s.K == "block" || s.K == "twins" {
 			if s.Parent > nb {
 				return false
 			}
 			nb++
+			if s.K == "twins" {
+				nb++
+			}
 		}
 	}
 	return true
@@ -751,8 +831,13 @@ func runCases(ctx *hx.Ctx, cases []*Case) {
 			}
 			reported[classOf(rr.failure)] = true
 			sc := shrink(c, func(x *Case) bool { r := runReal(x); return r.failure != "" })
-			r := runReal(sc)
-			ctx.Violation(classOf(r.failure), r.failure, sc, true)
+			f := rr.failure
+			if r := runReal(sc); r.failure != "" {
+				f = r.failure
+			} else {
+				sc = c // not reproducible on the shrunk case (depends on in-memory node sharing): keep the original
+			}
+			ctx.Violation(classOf(f), f, sc, true)
 			continue
 		}
 		if rr.deadFork != "" && !reported["deadfork"] {
@@ -762,7 +847,11 @@ func runCases(ctx *hx.Ctx, cases []*Case) {
 			ctx.Violation("dead-fork root silently different after prune", r.deadFork, sc, true)
 		}
 		if d := disagreement(c, rr, answers[i]); d != "" {
-			ctx.Violation("correspondence:"+classOf(d), "state/trie model and committed tries disagree; no input found on which the property's own predicates fail: "+d, c, false)
+			if reported["correspondence"] {
+				continue
+			}
+			reported["correspondence"] = true
+			ctx.Violation("correspondence:committed-content", "state/trie model and committed tries disagree; no input found on which the property's own predicates fail: "+d, c, false)
 		}
 	}
 }
@@ -804,7 +893,7 @@ func main() {
 		}
 	}
 	r := hx.NewRand(ctx.Seed)
-	n := ctx.Scale(160, 6000)
+	n := ctx.Scale(2000, 20000)
 	for done := 0; done < n; {
 		k := min(40, n-done)
 		batch := make([]*Case, k)
@@ -815,7 +904,8 @@ func main() {
 		done += k
 	}
 	ctx.Finish("block trees of 10-60 (thorough 30-300) blocks over 3-24 accounts x 2-12 storage keys with forks on recent blocks (conflict numbers), hot/cold "+
-		"accounts (storage tries untouched for long), on a MuxDB with real caches (TTL 0-32), hist partition factor 1-16, deduped factor 1/4/64/MaxUint32; "+
+		"accounts (storage tries untouched for long; every third case 2-4 accounts whose secure keys share the first byte with create/destroy traffic), twin blocks "+
+		"(two states opened on the same head before either stages), on a MuxDB with real caches (TTL 0-32), hist partition factor 1-16, deduped factor 1/4/64/MaxUint32; "+
 		"interleaved reads of every committed root (accounts, storage, metadata, block-number index), restarts, and rounds of the real pruner over aligned "+
 		"[base,target); every 8th case prunes misaligned ranges (informational only); non-trivial = has forks, >= 1 prune round, >= 10 blocks",
 		[]string{
